@@ -5,7 +5,7 @@ from mc.common import ramp, expander
 from mc.refs import keccak as RK
 
 WIDTHS = (25, 50, 100, 200, 400, 800, 1600)
-BIGRATES = (8, 9, 36, 40, 64, 127, 128, 129, 136, 144, 168, 576, 832, 1024, 1027, 1088, 1152, 1344, 1536)
+BIGRATES = (8, 9, 36, 40, 64, 72, 127, 128, 129, 136, 144, 168, 200, 576, 832, 1024, 1027, 1080, 1088, 1096, 1152, 1344, 1536)
 
 
 def rates(b, tier):
@@ -16,7 +16,7 @@ def rates(b, tier):
         return sorted(set(range(1, b, 5)) | {r for r in BIGRATES if r < b})
     rs = [r for r in BIGRATES if 0 < r < b]
     if tier == 'quick':
-        keep = {100: (9, 40, 64), 200: (40, 127, 136), 400: (9, 144), 800: (129, 576), 1600: (1027, 1088, 576)}[b]
+        keep = {100: (9, 40, 64), 200: (40, 127, 136), 400: (9, 144), 800: (129, 576), 1600: (1027, 1088, 576, 136, 1096)}[b]
         rs = [r for r in rs if r in keep]
     return rs
 
